@@ -2,6 +2,7 @@ package simmongo
 
 import (
 	"context"
+	"encoding/json"
 	"fmt"
 	"io"
 	"net"
@@ -325,6 +326,13 @@ func canonCmd(cmd bson.D) string {
 	b, err := bson.MarshalExtJSON(f, false, false)
 	if err != nil {
 		return fmt.Sprint(f)
+	}
+	// Go maps inside commands are encoded in random key order: sort keys
+	var x interface{}
+	if json.Unmarshal(b, &x) == nil {
+		if c, err := json.Marshal(x); err == nil {
+			b = c
+		}
 	}
 	s := string(b)
 	// generated ObjectIDs are volatile (orda's createCollection inserts and deletes an empty document)
